@@ -124,6 +124,10 @@ def make_las(kind):
         return las
     if kind == "text-curve":
         return lasio.read(BASE.replace("10.5", "abc").replace("30.5", "def"))
+    if kind == "nocurves":
+        return lasio.LASFile()
+    if kind == "header-only":
+        return lasio.read(BASE.split("~ASCII")[0].replace("DEPT.M : depth\nGR.GAPI : gamma\n", ""))
     if kind == "surrogate":
         # header text that no codec can encode (a lone surrogate, as left by encoding_errors='surrogateescape')
         las = lasio.read(BASE)
@@ -181,6 +185,16 @@ WRITE_SCENARIOS = [
     ("to_csv:pathlib:default", "to_csv", "read", {}, "pathlib"),
     ("to_csv:pathlib:bad-dialect", "to_csv", "read", {"delimiter": "toolong"}, "pathlib"),
     ("write:bytespath:default", "write", "read", {}, "bytespath"),
+    # objects without curves; targets that exist already (a second write to the same path, overwriting a file)
+    ("to_csv:path:nocurves", "to_csv", "nocurves", {}, "path"),
+    ("to_csv:path:header-only", "to_csv", "header-only", {}, "path"),
+    ("to_csv:path:nocurves-mnemonics", "to_csv", "nocurves", {"mnemonics": ["a"], "units": ["b"]}, "path"),
+    ("write:path:nocurves", "write", "nocurves", {}, "path"),
+    ("write:existing:default", "write", "read", {}, "existing-path"),
+    ("write:existing:bad-fmt", "write", "read", {"fmt": "%q"}, "existing-path"),
+    ("write:existing:missing-vers", "write", "missing-vers", {}, "existing-path"),
+    ("to_csv:existing:default", "to_csv", "read", {}, "existing-path"),
+    ("to_csv:existing:bad-dialect", "to_csv", "read", {"delimiter": "toolong"}, "existing-path"),
 ]
 
 # two calls on the SAME LASFile: a path call (which may fail, by itself or by an injected fault) followed by a call
@@ -293,6 +307,10 @@ def run_once(name, inject_at):
             fo = io.StringIO()
             caller.append(fo)
             ref = fo
+        elif target == "existing-path":
+            with open(path, "w") as pre:
+                pre.write("an older file under the same name\n" * 3)
+            ref = path
         elif target == "pathlib":
             ref = pathlib.Path(path)
         elif target == "bytespath":
